@@ -23,25 +23,44 @@ Proof.
   destruct (tmode_of c path); rewrite run_copy_write; reflexivity.
 Qed.
 
-(* a copy from an empty source does nothing where templates' ResponseBuffer is not in the stack *)
+(* a copy from an empty source does nothing on any writer stack, templates' ResponseBuffer included:
+   its ReadFrom leaves the implicit header to the first byte copied *)
 Lemma run_empty_copy pre post x :
-  b_mode x = TOff -> run_script (pre ++ ORf [] :: post) x = run_script (pre ++ post) x.
+  run_script (pre ++ ORf [] :: post) x = run_script (pre ++ post) x.
 Proof.
-  intro Hm. rewrite !run_app.
-  pose proof (run_script_on pre x) as (_ & _ & M).
-  destruct (run_script pre x) as [y|y]; [|reflexivity].
-  cbn [bnd out_st run_script step b_rf] in *. unfold b_active. rewrite M, Hm. reflexivity.
+  rewrite !run_app. destruct (run_script pre x) as [y|y]; reflexivity.
 Qed.
 
-Lemma serve_empty_copy_no_templates et c path ae pre post ret err :
-  c_templates c = false ->
+Lemma serve_empty_copy et c path ae pre post ret err :
   serve et c path ae (pre ++ ORf [] :: post) ret err = serve et c path ae (pre ++ post) ret err.
 Proof.
-  intro Ht. rewrite !serve_eq. apply outer_ext.
-  assert (Hm : tmode_of c path = TOff) by (unfold tmode_of; rewrite Ht; reflexivity).
-  rewrite Hm. unfold templates_mw, templates_mw_p, probe.
-  rewrite run_empty_copy; [reflexivity|].
-  destruct (entry3_b (c_gzip c && ae) (c_header c) (mime_ct c path)) as [B _]. exact B.
+  rewrite !serve_eq. apply outer_ext.
+  unfold templates_mw, templates_mw_p, templates_on_p, buf_reset, probe.
+  destruct (tmode_of c path); rewrite run_empty_copy; reflexivity.
+Qed.
+
+(* the handler contract does not see an empty copy either *)
+Lemma wh_first_empty_copy pre post : forall c0, wh_first c0 (pre ++ ORf [] :: post) = wh_first c0 (pre ++ post).
+Proof.
+  induction pre as [|o pre IH]; intro c0; [reflexivity|].
+  destruct o as [k v|s|b| |pv|b]; [| | | | |destruct b as [|b0 b]]; cbn [app wh_first]; rewrite ?IH; reflexivity.
+Qed.
+Lemma touched_empty_copy pre post : touched (pre ++ ORf [] :: post) = touched (pre ++ post).
+Proof.
+  induction pre as [|o pre IH]; [reflexivity|].
+  destruct o; cbn [app touched]; rewrite ?IH; reflexivity.
+Qed.
+Lemma panics_empty_copy pre post : panics (pre ++ ORf [] :: post) = panics (pre ++ post).
+Proof.
+  induction pre as [|o pre IH]; [reflexivity|].
+  destruct o; cbn [app panics]; rewrite ?IH; reflexivity.
+Qed.
+Lemma contract_empty_copy pre post ret :
+  handler_contract (pre ++ ORf [] :: post) ret = handler_contract (pre ++ post) ret /\
+  panics_after_write (pre ++ ORf [] :: post) = panics_after_write (pre ++ post).
+Proof.
+  unfold handler_contract, panics_after_write.
+  rewrite wh_first_empty_copy, touched_empty_copy, panics_empty_copy. split; reflexivity.
 Qed.
 
 (* ---------- an error status handed to the layers outside templates ---------- *)
